@@ -137,6 +137,12 @@ func runScenario(sc scen, rng *rand.Rand) []rec.Event {
 }
 
 func runScenarioLogged(sc scen, rng *rand.Rand, lb *lockedBuf) []rec.Event {
+	switch sc.Kind {
+	case "twoconn":
+		return runTwoConn(sc)
+	case "latereply":
+		return runLateReply(sc)
+	}
 	res := &result{}
 	if sc.Reverse {
 		os.Setenv("AGWPE_REVERSE_TO_FROM", "true")
@@ -735,6 +741,10 @@ func Main(args []string) int {
 	mk(func(s *scen) { s.Kind = "inbound"; s.Frames = repeat(16, 3); s.Pace = "burst"; s.ReadWait = 300 })
 	mk(func(s *scen) { s.Kind = "inbound"; s.Frames = repeat(16, 10); s.Pace = "burst"; s.ReadWait = 300 })
 	mk(func(s *scen) { s.Kind = "inbound"; s.Frames = repeat(16, 40); s.Pace = "burst"; s.ReadWait = 400 })
+	// two connections on one port at the same time; a reply that arrives after its request gave up
+	mk(func(s *scen) { s.Kind = "twoconn"; s.Frames = []int{10, 20, 30, 40, 50}; s.Writes = []int{200} })
+	mk(func(s *scen) { s.Kind = "twoconn"; s.Port = 1; s.Frames = []int{255, 1, 255, 1}; s.Writes = []int{10, 20, 30} })
+	mk(func(s *scen) { s.Kind = "latereply"; s.Frames = []int{10, 20, 30} })
 	// seeded schedules
 	for i := 0; i < *n; i++ {
 		s := base
